@@ -78,6 +78,7 @@ type Case struct {
 	Pres   []PreSpec `json:"pres,omitempty"`
 	H      uint64    `json:"h"`
 	T      int64     `json:"t"`
+	TN     int64     `json:"tn,omitempty"` // nanoseconds of the median time (the median of an even window is a midpoint: x.5 s)
 	SH     int       `json:"sh,omitempty"`
 	Alt    [][]int   `json:"alt,omitempty"`    // extra sub-policies (paths) to opacify for the address check
 	NoAddr bool      `json:"noaddr,omitempty"` // skip the address/wire part (done by a sibling case)
@@ -152,7 +153,7 @@ func anyTooWide(n *Node) bool {
 }
 
 func verify(p types.SpendPolicy, c *Case, msg types.Hash256, sigs []types.Signature, pres [][32]byte) bool {
-	return p.Verify(c.H, time.Unix(c.T, 0), msg, sigs, pres) == nil
+	return p.Verify(c.H, time.Unix(c.T, c.TN), msg, sigs, pres) == nil
 }
 
 func libWire(p types.SpendPolicy) []byte {
@@ -181,7 +182,7 @@ func checkCase(c Case) error {
 		pres[i] = p.pre()
 	}
 	sh := shapeOf(root)
-	want := refAccepts(root, sh, c.H, c.T, msg, sigs, pres)
+	want := refAccepts(root, sh, c.H, c.T, c.TN, msg, sigs, pres)
 	got := verify(presented, &c, msg, sigs, pres)
 	if got != want {
 		key := "C14/verdict"
@@ -267,7 +268,7 @@ func checkCase(c Case) error {
 			labels = append(labels, "total:1000-1024")
 		}
 	}
-	fp := stats.FP(root.String(), witnessText(&c), c.H, uint64(c.T), c.SH)
+	fp := stats.FP(root.String(), witnessText(&c), c.H, uint64(c.T), uint64(c.TN), c.SH)
 	rec.Case(fp, nt, labels...)
 	if rec.WantSample() {
 		if b := root.String(); len(b) < 1500 {
